@@ -90,4 +90,15 @@ PROPS = {
         "level_text": "Lean theorems C04_perm / C04_reject / table_ok over the cyclicGroups table regenerated from range.go on every run: for every n in 1..2^32+60 and every pair of draws the model iterator terminates and emits a permutation of 1..n; other sizes are rejected. Pratt certificates for all 32 rows are re-derived and kernel-checked each run. The algorithm model is tied to the code by differential runs of the real iterator.",
         "level_note": "Trusted: Lean kernel + Mathlib; sxfacts reads the table faithfully; math/big = Nat arithmetic; correspondence of the hand-written Next/constructor model is validated by sxdiff iter (differential, not proved).",
     },
+    "C20": {
+        "modules": ["SxVerif.Props.C20"],
+        "components": ["recv"],
+        "trusted_base": [
+            "modelled, not verified: the Go error values of the vocabulary (syscall.EAGAIN, *net.OpError, io.EOF, …) classify as Model/Recv.lean says (validated by running the real receiver on each value)",
+        ],
+        "assumptions": ["the error channel has a consumer (errors beyond the 100-slot buffer block on a ctx-guarded send, they are not dropped)",
+                        "cancellation is observed at the loop head (a cancellation racing with an error send may or may not deliver that one error: Go select semantics)"],
+        "level_text": "Lean theorem C20: for every finite sequence of read outcomes over the modelled error vocabulary and every cancellation point, the receiver model processes exactly the frames before its end, once each and in order, reports exactly the unknown failures and processing errors, retries transient ones silently and ends at the first broken-socket outcome or at cancellation (induction over the sequence, no length bound). The model is tied to receiver.go by running the real ReceivePackets on scripted readers/processors.",
+        "level_note": "Trusted: Lean kernel; the vocabulary of 15 error values stands for all errors (an error outside it is classified by the same two Go functions but is not modelled); timing (5 ms sleep) not modelled.",
+    },
 }
